@@ -124,7 +124,9 @@ def enc_native(r, idx, rtype, source="test"):
 
 
 def enc_krome(r, idx, fmtkeys):
-    vals = {"idx": str(idx), "tmin": f"{r['tmin']:g}" if r["tmin"] > 0 else "NONE", "tmax": f"{r['tmax']:g}" if r["tmax"] > 0 else "N",
+    # an absent bound is a keyword or - as KIDA-derived files and naunet's own KROME writer spell it - the sentinel -9999
+    tmin_txt = f"{r['tmin']:g}" if r["tmin"] > 0 else r.get("krome_tmin_text", "NONE")
+    vals = {"idx": str(idx), "tmin": tmin_txt, "tmax": r.get("krome_tmax_text") or (f"{r['tmax']:g}" if r["tmax"] > 0 else "N"),
             "rate": f"{r['alpha']:.3e}*(T32)**({r['beta']:.2f})".replace("e-", "d-").replace("e+", "d")}
     ri, pi = iter(r["re"] + r["pseudo_re"]), iter(r["pr"])
     out = []
@@ -218,9 +220,14 @@ def gen_file(rng, fmt, n):
             lines.append(enc_native(r, idx, rtype))
             e["type"] = rtype
         elif fmt == "krome":
+            if r["tmin"] <= 0 and rng.random() < 0.5:
+                r["krome_tmin_text"] = rng.choice(["-9999", "-9999.00", "-1d0", ">-1d1", "N/A"])
+            if r["tmax"] > 0 and rng.random() < 0.3:
+                r["krome_tmax_text"] = rng.choice(["+", "<+", ".LE."]) + f"{r['tmax']:g}"
             lines.append(enc_krome(r, idx, fmtkeys))
             e["type"] = 999
-            e["tmin"] = r["tmin"] if r["tmin"] > 0 else -1.0
+            e["tmin"] = r["tmin"] if r["tmin"] > 0 else {"-9999": -9999.0, "-9999.00": -9999.0, "-1d0": -1.0, ">-1d1": -10.0}.get(
+                r.get("krome_tmin_text"), -1.0)
             e["tmax"] = r["tmax"] if r["tmax"] > 0 else -1.0
         exp.append(e)
     if rng.random() < 0.5 and fmt != "krome":
@@ -457,6 +464,36 @@ def run_c18(argv):
         d["rate_modifier"] = {str(rng.choice([1, 2, 3])): rng.choice([0.0, 0, "0.0", 2.5e-10]), "5": rng.choice(["2.0 * zeta", 0.0, "1.0e-10"])}
         descs.append(d)
     c20.process(chk, descs, [])
+    # exporting an edited network again into the same project directory: the project's files must describe the edited network
+    from .c17 import run_worker, native
+    from .c20 import BACK
+    for k, d in enumerate(descs[:2 if tier == "quick" else 8]):
+        d = dict(d, rate_modifier={}, ode_modifier={})
+        d.pop("ode_modifier_terms", None)
+        edir = chk.scratch / f"reexport{k}" / "proj"
+        edir.parent.mkdir(parents=True)
+        extra = native(90 + k, ["C+", "O"], ["CO", "H+"], a=3.3e-10) if not d["replacement"] else native(90 + k, ["MG+", "H"], ["MG", "H+"], a=3.3e-10)
+        back = list(BACK[d["method"]])
+        job = {"steps": [{"op": "build", "id": "A", "desc": d},
+                         {"op": "export", "id": "A", "dir": str(edir), "backend": back, "tag": ["export-1", k]},
+                         {"op": "add_line", "id": "A", "line": extra, "fmt": "naunet"},
+                         {"op": "export", "id": "A", "dir": str(edir), "backend": back, "tag": ["export-2", k]},
+                         {"op": "cli_render", "dir": str(edir), "tag": ["re-render", k]},
+                         {"op": "render", "id": "A", "backend": back, "tag": ["direct", k]}]}
+        res = run_worker(job, 0)
+        chk.count(("re-export", k), nontrivial=True)
+        if isinstance(res, dict) or any("error" in r for r in res):
+            err = res.get("crash") if isinstance(res, dict) else next(r["error"] for r in res if "error" in r)
+            chk.violation({"kind": "re-export-raised"}, f"export / add / export / render sequence raised: {str(err)[-300:]}",
+                          input={"description": {x: d[x] for x in ("kwargs", "method")}, "added_line": extra})
+            continue
+        rer, direct = res[2], res[3]
+        if rer.get("canon") != direct.get("canon"):
+            chk.violation({"kind": "re-export-stale"},
+                          "after editing a network and exporting it again into the same directory, `naunet render` there does not "
+                          "reproduce the direct rendering of the edited network",
+                          input={"description": {x: d[x] for x in ("kwargs", "method")}, "sequence": "build, export, add_reaction, export, render",
+                                 "added_line": extra}, re_rendered=rer.get("canon"), direct=direct.get("canon"))
     if getattr(chk, "lean_ok", False) and reqs:
         try:
             answers = lean_driver(reqs)
